@@ -133,9 +133,9 @@ ENGINES += [
 ]
 CHECKS += [
     {"id": "C18", "engine": "indent", "level": "model_checking",
-     "text": "Indent.tla: all derivations <= 9 lines / depth 3 (12 / 4 and 4000 simulated deeper ones in thorough) are generated by TLC and the closed form is shown to satisfy SameBlockSameColumn, OneLevelDeeper, CloseBraceAligns and BracePlacement on each; every program is rendered twice with different seeded original indentation and run with seeded (indent_columns 1..8, indent_namespace / class / extern, indent_switch_case, indent_braces, indent_brace, indent_with_tabs 0..2, tab size) configurations; the columns observed in the output are judged with the same predicates (alarm) and compared with the closed form (drift, currently 0).",
+     "text": "Indent.tla: all derivations <= 9 lines / depth 3 (12 / 4 and 4000 simulated deeper ones in thorough) are generated by TLC and the closed form is shown to satisfy SameBlockSameColumn, OneLevelDeeper, CloseBraceAligns and BracePlacement on each; every program is rendered twice with different seeded original indentation and run with seeded (indent_columns 1..8, indent_namespace / class / extern, indent_switch_case, indent_braces, indent_brace, indent_with_tabs 0..2, tab size) configurations; the columns observed in the output are judged with the same predicates (alarm) and compared with the closed form (drift, currently 0); a third rendering carries comments behind / before every line. Nest.tla adds the bodies WITHOUT braces (virtual braces): every statement tree of depth <= 2 over if / else chains, loops, do-while and try / catch / finally is written one token group per line in C, C++, Java and C# and every line must stand at 1 + indent_columns x nesting level (NestTrace).",
      "design_ref": "DESIGN.md 4/C18", "technique": TLA + " (Indent.tla grammar + closed-form columns)",
-     "note": "C++ rendering with braces on their own lines; continuation lines, labels and trailing comments excluded as in the statement; non-default brace styles are judged by their documented offsets"},
+     "note": "braces on their own lines; continuation lines, labels and trailing comments excluded as in the statement; non-default brace styles are judged by their documented offsets; an 'if' that is the whole unbraced body of an 'else' continues the chain at the chain's level unless indent_else_if is set"},
 ]
 
 ENGINES += [
